@@ -14,8 +14,8 @@ CLAIMED = {
     ref='DESIGN.md §7 C01'),
  'C02': dict(level='other', engine='tables+absint',
     technique='constant-table comparison against a generator; GF(2)-linear normal form of the symbolic checksum expression compared with polynomial division on a basis; path-fact rules over the abstract states of the Message reader (DF id as a term of the first frame byte, provenance marker on the checksum)',
-    text='Decides: all 256 CRC table entries equal the remainder of i*x^24 by the Mode S generator; a frame goes on to DF decoding only in states that exclude DF 17 or have checksum 0, and the CRC error is raised only with id 17 and checksum >= 1; the checksum is computed over all 7/14 frame bytes in order and is the value stored as Message.crc and as the address/parity field of DF 0, 4, 5, 16, 20, 21; index obligations of modes_checksum; no error exit of the DF reader is reachable for a complete frame of an address/parity format (every payload yields its address); modes_checksum(frame) equals the remainder of the frame polynomial by the generator for every 56- and 112-bit frame (its symbolic expression over the frame bytes uses only xor, shifts, constant masks and lookups in the table shown GF(2)-linear, so it is a linear map of the frame bits, and it agrees with long division on the zero frame and on all 56 / 112 unit vectors). Does NOT decide the 1-2 bit / 24-bit burst clause (a property of the generator polynomial, not of this code).',
-    note='Static rule check, clause-limited as stated. Trusted: rustc constant evaluation and MIR, deku read contracts, the abstract interpreter.',
+    text='Decides: all 256 CRC table entries equal the remainder of i*x^24 by the Mode S generator; a frame goes on to DF decoding only in states that exclude DF 17 or have checksum 0, and the CRC error is raised only with id 17 and checksum >= 1; the checksum is computed over all 7/14 frame bytes in order and is the value stored as Message.crc and as the address/parity field of DF 0, 4, 5, 16, 20, 21; index obligations of modes_checksum; no error exit of the DF reader is reachable for a complete frame of an address/parity format (every payload yields its address); modes_checksum(frame) equals the remainder of the frame polynomial by the generator for every 56- and 112-bit frame (its symbolic expression over the frame bytes uses only xor, shifts, constant masks and lookups in the table shown GF(2)-linear, so it is a linear map of the frame bits, and it agrees with long division on the zero frame and on all 56 / 112 unit vectors). Error detection: on the 112 syndromes L(unit_k) of that extracted linear map - all non-zero, pairwise different, and linearly independent inside each of the 89 windows of 24 consecutive bits - so no 1-bit, 2-bit or <= 24-bit burst corruption of a frame has checksum 0 and (by the acceptance rule) none of a valid DF17 frame is accepted as DF17.',
+    note='Static rule check; every clause of the statement is decided on the extracted expression and states. Trusted: rustc constant evaluation and MIR, deku read contracts, the abstract interpreter.',
     ref='DESIGN.md §7 C02'),
  'C03': dict(level='other', engine='absint+dataflow',
     technique='modular abstract interpretation of every deku reader from bit 0 of a synthetic stream (exact bit positions of primitive reads), MIR dataflow from each read to the field it builds, comparison with a reviewed layout table; per-field slices whose symbolic value expressions are evaluated exhaustively over the field\'s codes against a scale table; path facts at the store of the DF20 BDS 0,5 label; constant tables',
